@@ -88,9 +88,21 @@ def scenario(bits, rows, tshape, v, strided, ext_ok, ext, with_ops):
     return evs, used
 
 
-def bytes_scenario(bits, prow, trail, payload, ext_ok, ext):
+def bytes_scenario(bits, prow, trail, payload, ext_ok, ext, layout="contiguous"):
     data = torch.tensor(payload, dtype=torch.uint8).reshape(prow, trail)
-    evs = [{"act": "StartBytes", "bits": bits, "prow": prow, "trail": trail, "payload": payload}]
+    if layout == "transposed":        # same logical bytes, column-major storage
+        data = data.t().contiguous().t()
+    elif layout == "stepped":         # every other column of a wider buffer
+        wide = torch.zeros(prow, 2 * trail, dtype=torch.uint8)
+        wide[:, ::2] = data
+        wide[:, 1::2] = 255 - data
+        data = wide[:, ::2]
+    elif layout == "offset":          # a row slice that does not start at the beginning of the storage
+        tall = torch.full((prow + 2, trail), 170, dtype=torch.uint8)
+        tall[1:prow + 1] = data
+        data = tall[1:prow + 1]
+    evs = [{"act": "StartBytes", "bits": bits, "prow": prow, "trail": trail, "payload": payload, "layout": layout,
+            "contiguous": bool(data.is_contiguous())}]
     for name, out in routes(data, bits, ext_ok, ext):
         evs.append({"act": "Unpack", "route": name, "out": flat(out)})
     return evs
@@ -128,8 +140,11 @@ def main():
         prow = rnd.randint(1, 6)
         trail = rnd.randint(1, 7)
         payload = [rnd.randrange(256) for _ in range(prow * trail)]
-        scen.append(bytes_scenario(bits, prow, trail, payload, ext_ok, ext))
+        scen.append(bytes_scenario(bits, prow, trail, payload, ext_ok, ext, rnd.choice(["contiguous", "transposed", "stepped", "offset"])))
     for bits in (2, 4):
+        for layout in ("transposed", "stepped", "offset"):
+            scen.append(bytes_scenario(bits, 3, 5, [(37 * k + 11) % 256 for k in range(15)], ext_ok, ext, layout))
+            scen.append(bytes_scenario(bits, 16, 16, list(range(256)), ext_ok, ext, layout))
         scen.append(bytes_scenario(bits, 1, 256, list(range(256)), ext_ok, ext))
         scen.append(bytes_scenario(bits, 256, 1, list(range(256)), ext_ok, ext))
     json.dump({"scenarios": scen, "ext_ok": ext_ok, "ext_msg": ext_msg, "routes": sorted(routes_used)},
